@@ -31,7 +31,7 @@ pub fn world_lookup(world: &World) -> (impl Fn(&str) -> Option<usize> + '_, impl
 
 pub fn run(cfg: &RunCfg, rep: &mut Report) {
     let world = World::new(cfg.seed);
-    let total = cfg.n_cases(3_000, 50_000);
+    let total = cfg.n_cases(3_000, 12_000);
     let ccfg = case_cfg(cfg.tier);
     let scfg = search_cfg(cfg.tier);
     let max_worlds = if cfg.tier == Tier::Thorough { 64 } else { 20 };
